@@ -2,6 +2,8 @@
 
 package dicescript
 
+import "strconv"
+
 func init() {
 	vHarnesses["VH_C13_lit"] = VH_C13_lit
 	vHarnesses["VH_C13_tpl"] = VH_C13_tpl
@@ -140,7 +142,7 @@ func VH_C13_tpl() {
 	}
 }
 
-//vh:prop=C13 tiers=quick,thorough sigkeys=depth budget_s=600 bounds="nesting depth 1..21 of template holes (concrete): accepted depths evaluate to the inner value wrapped by the literal segments; a rejected depth is an error, never a wrong value"
+//vh:prop=C13 tiers=quick,thorough sigkeys=depth budget_s=600 bounds="nesting depth 1..21 of template holes (concrete): accepted depths evaluate to the inner value wrapped by the literal segments; a rejected depth is an error, never a wrong value; the same with a statement block assigning a variable at every level: text, every variable and no other"
 func VH_C13_nest() {
 	d := 1 + vChoice("depth", 21)
 	src, want := "7", "7"
@@ -155,6 +157,33 @@ func VH_C13_nest() {
 	}
 	s, ok := vm.Ret.ReadString()
 	vAssert(ok && s == want, "nested-template-value")
+	// the same nesting with a statement block that assigns a variable at every
+	// level: "embedded code may assign variables at any accepted depth"
+	src2, want2 := "`{% w0 = 100 %}`", "100"
+	for i := 1; i < d; i++ {
+		n := strconv.Itoa(i)
+		src2 = "`<{% w" + n + " = " + n + " %}{" + src2 + "}>`"
+		want2 = "<" + n + want2 + ">"
+	}
+	vm2 := vNewVM()
+	if err := vm2.Run(src2); err != nil {
+		return
+	}
+	s2, ok := vm2.Ret.ReadString()
+	vAssert(ok && s2 == want2, "nested-template-with-assignments-value")
+	for i := 0; i < d; i++ {
+		v, ok := vm2.Attrs.Load("w" + strconv.Itoa(i))
+		wantV := int64(i)
+		if i == 0 {
+			wantV = 100
+		}
+		vAssert(ok && v != nil, "variable-assigned-at-every-accepted-depth")
+		if ok && v != nil {
+			iv, isInt := v.ReadInt()
+			vAssert(isInt && int64(iv) == wantV, "variable-assigned-at-every-accepted-depth")
+		}
+	}
+	vAssert(vm2.Attrs.Length() == d, "no-other-variable-appears")
 }
 
 var vC13VarHoles = []string{"arr", "dct", "[arr, 3]", "arr[0]", "sv", "iv", "arr + [iv]", "{'k': arr}", "f1", "f2", "f3 * 2", "[f1, f2]", "null", "fn1"}
